@@ -144,7 +144,7 @@ example : ∀ op ∈ [Op.write 0 [1, 2, 3], .read 1 5, .free 2], op.Valid := by
 /-- a fault is a possible outcome of the model (the theorems are not vacuous): a state whose `inmem_hi` is wrong trips
 the assert of `endOffset()` -/
 example : ({ nodes := { head := .node .nil ⟨0, [7], false⟩ .nil, elements := 1 }, hi := 5 } : MemHdr).endOffset =
-    .error .assertEndOffset := by decide
+    .error .assertEndOffset := rfl
 
 /-- the splay rotations do happen: looking up the smallest of three nodes inserted in increasing order brings it to the root -/
 example : (Tree.splay (nodeCompare 0 1) (.node (.node (.node .nil ⟨0, [1], false⟩ .nil) ⟨10, [2], false⟩ .nil) ⟨20, [3], false⟩ .nil)).1 =
